@@ -93,6 +93,56 @@ Fixpoint collect (fuel : nat) (sid : N) (ended : bool) (frag rest : bytes) : opt
     end
   end.
 
+(* ====================================================================================== *)
+(* the CONFIGURATION of the HPACK decoders (TracingHTTP2Conn: hpack.NewDecoder(limit, nil))  *)
+(* ====================================================================================== *)
+(* What the header fields of a block ARE is the oracle `dec` below; which blocks a decoder built with a given
+   dynamic-table limit refuses outright is repository code (the argument of hpack.NewDecoder) and is modelled:
+   a block may open with dynamic table size updates (RFC 7541 6.3: 001xxxxx, integer with a 5-bit prefix,
+   hpack.readVarInt), and hpack.Decoder.parseDynamicTableSizeUpdate answers "dynamic table size update too
+   large" (the framer: COMPRESSION_ERROR, the tracer: broken) when one exceeds dynTab.allowedMaxSize. *)
+Fixpoint hp_varint (p : bytes) (m acc : N) : option (N * bytes) :=
+  match p with
+  | [] => None
+  | b :: r =>
+    let acc' := acc + (b mod 128) * 2 ^ m in
+    if b <? 128 then Some (acc', r)
+    else if 63 <=? m + 7 then None else hp_varint r (m + 7) acc'
+  end.
+
+Definition hp_size_update (blk : bytes) : option (N * bytes) :=
+  match blk with
+  | [] => None
+  | b :: r =>
+    if (32 <=? b) && (b <? 64) then
+      (if b - 32 <? 31 then Some (b - 32, r) else hp_varint r 0 31)
+    else None
+  end.
+
+Fixpoint hp_updates (fuel : nat) (blk : bytes) : list N :=
+  match fuel with
+  | O => []
+  | S fuel' =>
+    match hp_size_update blk with
+    | Some (v, r) => v :: hp_updates fuel' r
+    | None => []
+    end
+  end.
+
+(* the dynamic table size updates a header block opens with *)
+Definition leading_updates (blk : bytes) : list N := hp_updates (length blk) blk.
+
+Definition hp_allows (allowed : N) (blk : bytes) : bool :=
+  forallb (fun v => v <=? allowed) (leading_updates blk).
+
+(* a decoder whose table may be resized up to `allowed` *)
+Definition cfg_dec (allowed : N) (dec : list bytes -> bytes -> option (list field))
+  : list bytes -> bytes -> option (list field) :=
+  fun hist blk => if hp_allows allowed blk then dec hist blk else None.
+
+(* math.MaxUint32: SETTINGS_HEADER_TABLE_SIZE is a 32-bit value, so no size a peer can announce exceeds it *)
+Definition hpack_unlimited : N := 4294967295.
+
 Section Oracle.
 (* hpack.Decoder as used by readMetaFrame: history of blocks of this direction -> block -> fields *)
 Variable dec : list bytes -> bytes -> option (list field).
@@ -913,7 +963,9 @@ Definition decode_case (args : list sx)
 
 Definition run_c15_conn (args : list sx) : sx :=
   or_bad (do (server, tr, tw, ops) <- decode_case args;
-          match conn_run (table_dec tr) (table_dec tw) (conn_init server) ops with
+          (* TracingHTTP2Conn: both decoders are built with an unlimited dynamic table *)
+          match conn_run (cfg_dec hpack_unlimited (table_dec tr)) (cfg_dec hpack_unlimited (table_dec tw))
+                         (conn_init server) ops with
           | None => ret sx_crash
           | Some (c, rs) =>
             let out := r_out (c_rc c) in
